@@ -15,13 +15,14 @@ import (
 // it is the expected one and that every entry is harmless.
 //
 // kinds:  mask   `x.Options & M` (test or masked copy), M listed
-//         maskout `x.Options & ^M` / `x.Options &^ M` (copy without M)
-//         clear  `x.Options &= ^M`         set  `x.Options |= M`
-//         cmp    `x.Options ==/!= y`  (whole-value comparison)
-//         copy   the whole value flows into a new node / a variable / a struct field
-//         pass   the whole value is an argument of a call
-//         write  `x.Options = …`
-//         other  anything else
+//
+//	maskout `x.Options & ^M` / `x.Options &^ M` (copy without M)
+//	clear  `x.Options &= ^M`         set  `x.Options |= M`
+//	cmp    `x.Options ==/!= y`  (whole-value comparison)
+//	copy   the whole value flows into a new node / a variable / a struct field
+//	pass   the whole value is an argument of a call
+//	write  `x.Options = …`
+//	other  anything else
 func init() {
 	register("OptionReaders", func(s *Src) (string, error) {
 		type entry struct{ file, fn, kind, mask string }
